@@ -874,6 +874,58 @@ def _rtf_contracts(reg):
         note="row start/end pairing for symbolic text; regex matches as assumed ascending non-overlapping positions")]
 
 
+# ============================================================ ODS typed cell values ==
+ODSX = "sharepoint2text/parsing/extractors/open_office/ods_extractor.py"
+ODS_OFFICE = "{urn:oasis:names:tc:opendocument:xmlns:office:1.0}"
+ODS_NUM_LITERALS = ("3", "2.5", "0", "-4.0", "1250.75", "0.5")
+ODS_CELLS = {}       # term id of the cell -> (kind, value V)
+
+
+def p_ods_cell():
+    """a table:table-cell without text children, one alternative per office:value-type of the statement's typed values:
+    date / time with an ARBITRARY non-empty attribute text, boolean and numeric (float, currency, percentage) literals"""
+    def mk(ex, st, name):
+        alts = []
+
+        def cell(kind, vtype, attr, val, cond):
+            n = ET.CNode("{urn:oasis:names:tc:opendocument:xmlns:table:1.0}table-cell",
+                         attrib={ODS_OFFICE + "value-type": VStr(vtype), ODS_OFFICE + attr: val}, name=f"{name}_{kind}_{len(alts)}")
+            ODS_CELLS[n.term.get_id()] = (kind, val)
+            alts.append((z3.And(cond) if cond else None, n.v))
+        for kind, attr in (("date", "date-value"), ("time", "time-value")):
+            v = VStr(z3.String(f"{name}_{kind}_text"))
+            cell(kind, kind, attr, v, [z3.Length(v.t) > 0])
+        for lit in ("true", "false"):
+            cell("boolean", "boolean", "boolean-value", VStr(lit), [])
+        for vtype in ("float", "currency", "percentage"):
+            for lit in ODS_NUM_LITERALS:
+                cell("number", vtype, "value", VStr(lit), [])
+        return alts
+    return Maker(mk, desc="ods cell: date | time (symbolic text) | boolean | float / currency / percentage literals")
+
+
+def ods_value_contracts(reg):
+    def post(c):
+        kind, val = ODS_CELLS[c.args["cell"].t.get_id()]
+        r = c.result
+        if not isinstance(r, VTuple) or len(r.items) != 2:
+            return z3.BoolVal(False)
+        typed = r.items[0]
+        if kind in ("date", "time"):
+            # the ISO text stored in the file, unchanged (a date-time at midnight stays a date-time)
+            return typed.t == val.t if isinstance(typed, VStr) else z3.BoolVal(False)
+        if kind == "boolean":
+            return typed.t == z3.BoolVal(val.const() == "true") if isinstance(typed, VBool) else z3.BoolVal(False)
+        from fractions import Fraction
+        fr = Fraction(val.const())
+        if fr.denominator == 1:
+            return ops.int_term(typed) == int(fr) if isinstance(typed, VInt) and not isinstance(typed, VBool) else z3.BoolVal(False)
+        return typed.t == z3.RealVal(f"{fr.numerator}/{fr.denominator}") if isinstance(typed, VReal) else z3.BoolVal(False)
+    return [FnContract(target=f"{ODSX}::_extract_cell_value", params=[("cell", p_ods_cell())],
+                       ensures=[("typed-value-per-office-value-type", post)], raises=[], inline=True,
+                       note="date / time -> the stored ISO text unchanged; boolean -> bool; numbers -> int when integral else float")]
+
+
 def contracts(reg):
     from contracts.symlist import register_over
     register_over()
@@ -883,6 +935,7 @@ def contracts(reg):
     out += value_contracts(reg)
     out += pptx_contracts(reg)
     out += rtf_contracts(reg)
+    out += ods_value_contracts(reg)
     return out
 
 
@@ -1019,22 +1072,51 @@ def _flow_site(mod, producer, sink_kw):
             elif isinstance(a, (ast.While, ast.For)) or (isinstance(a, ast.Try) and not any(prev is x for x in a.body)):
                 bad.append(f"line {a.lineno}: inside {type(a).__name__}")
             prev = a
-        # early exits between the producer and the use that depend on something else than the value being empty
-        blk = None
-        for a in [stmt_of(node)] + ancestors(stmt_of(node)):
+        # early exits (continue / return / break / raise) on the way from the producer to the use, in EVERY block entered on
+        # that way, that depend on something else than the value being empty (e.g. a "seen" set, a size or an index test)
+        def exits(x):
+            inner_loops = [l for l in ast.walk(x) if isinstance(l, (ast.For, ast.While)) and l is not x]
+            inside = {id(y) for l in inner_loops for y in ast.walk(l) if isinstance(y, (ast.Continue, ast.Break))}
+            return any(isinstance(y, (ast.Return, ast.Raise)) or (isinstance(y, (ast.Continue, ast.Break)) and id(y) not in inside) for y in ast.walk(x))
+        def risky(x):
+            return exits(x) and not (isinstance(x, ast.If) and neg_guard_ok(x.test) and not any(exits(y) for y in x.orelse))
+
+        def note(x):
+            bad.append(f"line {x.lineno}: early exit before the value is handed on (`{ast.unparse(x).splitlines()[0][:60]}`)")
+        holds_st0 = lambda x: any(y is st0 for y in ast.walk(x))
+        chain = [stmt_of(node)] + [a for a in ancestors(stmt_of(node))]
+        common = None
+        for child, par in zip(chain, chain[1:]):
             for field in ("body", "orelse", "finalbody"):
-                seq = getattr(a, field, None)
-                if isinstance(seq, list) and any(x is st0 for x in seq):
-                    blk = seq
-            if blk:
+                seq = getattr(par, field, None)
+                if not (isinstance(seq, list) and any(x is child for x in seq)):
+                    continue
+                start = 0
+                hit = [i for i, x in enumerate(seq) if holds_st0(x)]
+                if hit:
+                    start, common = hit[0] + 1, seq[hit[0]]
+                for x in seq[start:]:
+                    if x is child:
+                        break
+                    if risky(x):
+                        note(x)
+            if common is not None:
                 break
-        if blk:
-            i0 = [i for i, x in enumerate(blk) if x is st0][0]
-            for x in blk[i0 + 1:]:
-                if any(y is stmt_of(node) for y in ast.walk(x)):
+        # statements that follow the producer inside the nested blocks of the statement that holds it
+        if common is not None and common is not st0:
+            up = [st0] + ancestors(st0)
+            for child, par in zip(up, up[1:]):
+                for field in ("body", "orelse", "finalbody"):
+                    seq = getattr(par, field, None)
+                    if isinstance(seq, list) and any(x is child for x in seq):
+                        i0 = [i for i, x in enumerate(seq) if x is child][0]
+                        for x in seq[i0 + 1:]:
+                            if any(y is stmt_of(node) for y in ast.walk(x)):
+                                break
+                            if risky(x):
+                                note(x)
+                if par is common:
                     break
-                if isinstance(x, ast.If) and any(isinstance(y, (ast.Continue, ast.Return, ast.Break, ast.Raise)) for y in ast.walk(x)) and not neg_guard_ok(x.test):
-                    bad.append(f"line {x.lineno}: early exit under `{ast.unparse(x.test)}`")
         return bad
 
     def sink_uses(names):
@@ -1110,7 +1192,9 @@ def call_sites(repo, tier):
     from contracts import C13_bounded as Bm
     sites = [(Bm.DOCX, "_extract_tables_from_context", "tables"), (Bm.ODT, "_extract_tables", "tables"), (Bm.ODP, "_extract_table", "tables"),
              (Bm.PPTX, "_extract_table_from_graphic_frame", "tables"), (Bm.EPUB, "get_tables", "tables"),
-             (Bm.XLSX, "_read_content_from_workbook", "sheets"), (Bm.XLS, "_read_content", "sheets"), (Bm.ODS, "_extract_sheet", "sheets")]
+             (Bm.XLSX, "_read_content_from_workbook", "sheets"), (Bm.XLS, "_read_content", "sheets"), (Bm.ODS, "_extract_sheet", "sheets"),
+             # the units that carry the tables reach the content object (slides, chapters)
+             (Bm.PPTX, "_process_slide_from_context", "slides"), (Bm.ODP, "_extract_slide", "slides"), (Bm.EPUB, "_extract_chapter", "chapters")]
     obls, fns = [], []
     for rel, producer, kw in sites:
         m = loader.module(rel, repo)
